@@ -1838,3 +1838,204 @@ def r08s(ctx, rep, rule="R08s"):
             "arbitrary-precision operations: %d): a float fallback in the middle of the fold stays, so the result depends on the order "
             "of the operands" % (nm, len(steps), watched, len(wide)), [f.span])
     rep.floor(rule, "variadic arithmetic folds", n, 3)
+
+
+_NUM_STEP = re.compile(r"number::Number as std::ops::(Add|Sub|Mul|Div)(Assign)?>")
+
+
+def _forward_locals(g, start, loose=False):
+    """locals that hold (a copy, a move or a reference of) the value of local `start`; loose: also the tuples it is put
+    into and whatever is taken out of those again"""
+    out = {start}
+    changed = True
+    while changed:
+        changed = False
+        for bb, j, st in g.stmts():
+            rv = st["rv"]
+            src = None
+            if rv["k"] == "use":
+                src = op_place(rv["a"])
+            elif rv["k"] == "ref":
+                src = rv["place"]
+            elif loose and rv["k"] == "agg" and rv.get("adt") == "(tuple)":
+                for o in rv.get("ops", []):
+                    po = op_place(o)
+                    if po is not None and po["l"] in out and not po["p"]:
+                        src = po
+            if src is None or src["l"] not in out or (not loose and [e for e in src["p"] if e != "*"]):
+                continue
+            d = st["lhs"]
+            if not d["p"] and d["l"] not in out:
+                out.add(d["l"])
+                changed = True
+    return out
+
+
+def _params_tested_exact(facts, path):
+    """1-based parameter positions of a helper on which it calls Number::is_exact"""
+    h = facts.fns.get(path)
+    out = set()
+    if h is None:
+        return out
+    for bb, t in h.calls():
+        if callee(t) == "marwood::number::Number::is_exact" and t["args"]:
+            o = h.origin(t["args"][0])
+            if o[0] == "arg" and not [e for e in o[2] if e != "*"]:
+                out.add(o[1])
+    return out
+
+
+def r08t(ctx, rep, rule="R08t"):
+    """no arithmetic step of + - * / on exact operands leaves the procedure unexamined"""
+    from ..shapes import dominating_guards
+    facts = ctx["facts"]
+    rep.rule(rule, "inexact only when the result is not representable, in every procedure of the list: the binary operators of "
+             "Number give a float as soon as the exact result leaves the representation of the operands (32-bit rational parts), "
+             "also where it is an integer or reduces to parts that fit — (/ 65536 1/65536) was 4294967296.0, (/ -2147483648 -1) "
+             "2147483648.0, (- (/ -2147483648 1)) 2147483648.0. In plus, minus, multiply, divide and the local helpers they call, "
+             "the result of every Number + - * / (and += -= *= /=) step is therefore examined for exactness before it is "
+             "returned: it reaches a Number::is_exact call in the same function, or is handed to a helper of the module that "
+             "calls is_exact on that parameter. A step is excused when one of its operands is known to be inexact on the way "
+             "there (the false edge of is_exact on it, or the None arm of to_big_rational().filter(is_exact)).")
+    PREFIX = "marwood::vm::builtin::number::"
+    scope = []
+    for nm in ("plus", "minus", "multiply", "divide"):
+        f = need(rep, rule, facts, PREFIX + nm)
+        if f is None:
+            continue
+        scope.append((nm, f))
+        for bb, t in f.calls():
+            c = callee(t) or ""
+            if c.startswith(PREFIX) and c in facts.fns and "{closure" not in c and all(c != g.path for _, g in scope):
+                scope.append((nm + ">" + c[len(PREFIX):], facts.fns[c]))
+    n = 0
+    per = {}
+    for nm, g in scope:
+        exact_calls = [(bb, t) for bb, t in g.calls() if callee(t) == "marwood::number::Number::is_exact" and t["args"]]
+        helper_calls = []
+        for bb, t in g.calls():
+            c = callee(t) or ""
+            if c.startswith(PREFIX) and c in facts.fns:
+                tested = _params_tested_exact(facts, c)
+                if tested:
+                    helper_calls.append((bb, t, tested))
+        closures_test = any(p.startswith(g.path + "::{closure") and any(callee(t2) == "marwood::number::Number::is_exact"
+                                                                      for _, t2 in h.calls()) for p, h in facts.fns.items())
+        for bb, t in g.calls():
+            fa = (t.get("fnargs") or "") + " " + (callee(t) or "")
+            m = _NUM_STEP.search(fa)
+            if not m:
+                continue
+            n += 1
+            assign = bool(m.group(2))
+            if assign:
+                o = g.origin(t["args"][0])
+                loc = o[1] if o[0] == "local" else (op_place(t["args"][0]) or {}).get("l")
+                if o[0] == "rv" and o[1]["rv"]["k"] == "ref":
+                    loc = o[1]["rv"]["place"]["l"]
+                p0 = op_place(t["args"][0])
+                if p0 is not None:
+                    sd = g.single_def(p0["l"])
+                    if sd is not None and sd[2] == "stmt" and sd[3]["rv"]["k"] == "ref":
+                        loc = sd[3]["rv"]["place"]["l"]
+            else:
+                loc = t["dest"]["l"] if not t["dest"]["p"] else None
+            watched = False
+            if loc is not None:
+                fl = _forward_locals(g, loc)
+                after = g.reach_from(bb)
+                for b2, t2 in exact_calls:
+                    p2 = op_place(t2["args"][0])
+                    if p2 is not None and p2["l"] in fl and (b2 in after or not assign):
+                        watched = True
+                for b2, t2, tested in helper_calls:
+                    for k in tested:
+                        if k - 1 < len(t2["args"]):
+                            p2 = op_place(t2["args"][k - 1])
+                            if p2 is not None and p2["l"] in fl and (b2 in after or not assign):
+                                watched = True
+            excused = False
+            if not watched:
+                operands = set()
+                for a in t["args"][:2]:
+                    pa = op_place(a)
+                    if pa is None:
+                        continue
+                    operands.add(pa["l"])
+                    oa = g.origin(a)
+                    if oa[0] == "local":
+                        operands.add(oa[1])
+                    sd = g.single_def(pa["l"])
+                    if sd is not None and sd[2] == "stmt" and sd[3]["rv"]["k"] in ("ref", "use"):
+                        src = sd[3]["rv"].get("place") or op_place(sd[3]["rv"].get("a"))
+                        if src is not None:
+                            operands.add(src["l"])
+                for sb, cond, taken, tt in dominating_guards(g, bb):
+                    oc = g.origin(cond)
+                    if oc[0] == "call" and callee(oc[1]) == "marwood::number::Number::is_exact" and taken == 0:
+                        pa = op_place(oc[1]["args"][0])
+                        if pa is not None and any(pa["l"] in _forward_locals(g, x) for x in operands):
+                            excused = True
+                    if oc[0] == "rv" and oc[1]["rv"]["k"] == "disc" and taken == 0:
+                        od = g.origin({"copy": oc[1]["rv"]["place"]})
+                        if od[0] == "call" and (callee(od[1]) or "").endswith("Option::<T>::filter") and closures_test:
+                            excused = True
+            per.setdefault(nm, []).append((bb, t, watched, excused))
+    for nm, sites in sorted(per.items()):
+        bad = [t["loc"] for bb, t, w, e in sites if not (w or e)]
+        key = "%s|%s|steps-examined" % (rule, nm)
+        (rep.ok if not bad else rep.fail)(
+            rule, key, "%s: all %d Number steps are examined for exactness (or have an operand known to be inexact)" % (nm, len(sites)) if not bad else
+            "%s returns the result of a Number + - * / step as the operator left it (%d of %d steps unexamined): where the 32-bit "
+            "rational arithmetic gives up, an exact operand pair with a representable result yields a float" % (nm, len(bad), len(sites)), bad)
+    rep.floor(rule, "Number + - * / steps in plus, minus, multiply, divide and their helpers", n, 6)
+
+
+def r08u(ctx, rep, rule="R08u"):
+    """expt's result is computed from its base, and an inexact exponent is noticed"""
+    facts = ctx["facts"]
+    rep.rule(rule, "inexactness is never silently dropped by expt: (a) the procedure returns nothing but values computed from the "
+             "base — a literal Number built in the procedure and returned as the result has the exactness of the literal, not of "
+             "the operands ((expt -1.0 4294967296) was the exact 1); (b) the exactness of the exponent is consulted "
+             "(Number::is_exact on it, in the procedure or a closure of it), since an inexact exponent makes the result inexact "
+             "((expt 2 2.0) was the exact 4).")
+    f = need(rep, rule, facts, "marwood::vm::builtin::number::expt")
+    if f is None:
+        return
+    # (a) constant Number aggregates and where they go
+    lits = []
+    for bb, j, st in f.stmts():
+        rv = st["rv"]
+        if rv["k"] == "agg" and "number::Number" in (rv.get("adt") or rv.get("ty") or st["lhs"].get("ty") or "") and \
+                all(op_const(o) is not None for o in rv.get("ops", [])) and not st["lhs"]["p"]:
+            lits.append((bb, st))
+    into = [t for bb, t in f.calls() if re.search(r"number::Number as std::convert::Into<marwood::vm::vcell::VCell>>::into|"
+                                                   r"vcell::VCell as std::convert::From<marwood::number::Number>>::from",
+                                                   t.get("fnargs") or "")]
+    bad = []
+    for bb, st in lits:
+        fl = _forward_locals(f, st["lhs"]["l"], loose=True)
+        for t in into:
+            p = op_place(t["args"][0]) if t["args"] else None
+            if p is not None and p["l"] in fl and not [e for e in p["p"] if e != "*"]:
+                # by-value only: a reference to the literal (a comparison) is not a result
+                if "&" not in (p.get("ty") or ""):
+                    bad.append(st["loc"])
+    key = rule + "|expt|result-from-base"
+    (rep.ok if not bad else rep.fail)(
+        rule, key, "expt converts no literal Number of its own into a result (%d literals, %d result conversions)" % (len(lits), len(into)) if not bad else
+        "expt returns a literal Number as the result: its exactness is the literal's, whatever the base was — (expt -1.0 4294967296) "
+        "is the exact 1", bad)
+    rep.floor(rule, "result conversions in expt", len(into), 1)
+    # (b)
+    exp_tested = False
+    scope = [f] + [h for p, h in facts.fns.items() if p.startswith(f.path + "::{closure")]
+    for g in scope:
+        for bb, t in g.calls():
+            if callee(t) == "marwood::number::Number::is_exact":
+                exp_tested = True
+    key = rule + "|expt|exponent-exactness"
+    (rep.ok if exp_tested else rep.fail)(
+        rule, key, "expt consults Number::is_exact" if exp_tested else
+        "expt never asks whether an operand is exact: an inexact exponent is read as an integer and forgotten, (expt 2 2.0) is the "
+        "exact 4", [f.span])
